@@ -80,10 +80,10 @@ CLAIMED = {
         text='Gen/C07.lean regenerates update_penalty_weights, initialize_penalty and every statement of ALMSolver::operator() (except clock reads / printing) on every run; theorems for all inner-solver functions, all histories, m incl. 0, single_penalty_factor both ways, optional user Sigma, under the explicit decidable ValidParams / ValidSigma: penalty_pos, penalty_le_max, penalty_mono, penalty_grows_only_where_needed (+ unchanged when ||e|| <= delta), multipliers_in_bounds_signed (via C15), tolerance_antitone_ge_final, outer_le_max_iter (+ logic_error unreachable), converged_iff_last_inner (m = 0 variant under the inner contract), interrupted_returns_immediately, sigma_handed_back, stats_are_sums, m0_single_call.',
         note='Lean kernel + Mathlib; translator gen/gen_c07.py (+ regex-pinned call sites); hand-written skeleton tied only on explored histories; clock = one oracle bit per inner solve; real-number semantics (NoNaN); open known findings = excluded points of ValidParams (the C++ validates no parameters).',
         design='§6 C07, §7-H'),
-    'C20_PENDING': dict(
+    'C20': dict(
         technique='Lean 4 proof: kernel-decided table theorems over translator-regenerated forwarding / vtable / C-ABI / constructor tables + inductive refinement proof of the shared counter block + decision-table proof of the loader; op-sequence correspondence of the real wrappers / loaders (plug-ins built per run) with the Lean driver; independent monitors; compile probes',
         category='proof',
-        text='forward_transparent (both counting wrappers, FunctionalProblem, DLProblem / DLControlProblem against dl-problem.h argument orders), counters_bijective, provides_ forwards and tests-the-member-it-calls, wrap_transparent (capability flags through the wrapper = flags of the problem), counter_eq_calls for every create/call/copy/decouple/reset sequence, reset_keeps_usable, flags_truthful for every subset of optional functions (m = 0 or not), loader_decision for every plug-in description - all over tables regenerated from the C++ on every run; entries of the unchanged tree that violate a table theorem are excluded by name and reported as findings with reproductions on the real code. Partial: values (bit-exact transparency) and the default-composition model are tied by correspondence / monitors only; timers not modelled.',
+        text='forward_transparent (both counting wrappers, FunctionalProblem, DLProblem / DLControlProblem against dl-problem.h argument orders), counters_bijective, provides_ forwards and tests-the-member-it-calls, wrap_transparent (capability flags through the wrapper = flags of the problem), counter_eq_calls for every create/call/copy/decouple/reset sequence, reset_keeps_usable, flags_truthful for every subset of optional functions (m = 0 or not), loader_decision for every plug-in description - all over tables regenerated from the C++ on every run; seven genuine defects found by this check (F1-F7) were repaired in /repo; the remaining deviation (F8: DLControlProblem lacks the two projection members) is excluded by name and recorded as an open finding. Partial: values (bit-exact transparency) and the default-composition model are tied by correspondence / monitors only; timers not modelled.',
         note='Lean kernel + Mathlib tactics; translator gen/gen_c20.py; hand models tied on explored sequences only; std::shared_ptr / dlopen semantics assumed as documented; crashes observed in a forked child; eval_jac_g with m = 0 treated as a documented default.',
         design='§6 C20, §7-F'),
     'C16': dict(
@@ -104,10 +104,21 @@ CLAIMED = {
         text='Props/C13.lean ocp_converged_certifies: for all evaluator oracles, all direction oracles (hence every gn_interval / gn_sticky / reset_lbfgs_on_gn_step / lqr_factor_cholesky), stop schedules, budgets, initial guesses: Converged => write_solution ran, u_out = u-hat of the final consistent iterate, eps = generated criterion of that iterate <= tolerance, (y, err_z) = write_solution on the forward roll-out of u_out; over ordered fields u_out in U, e = c - Pi_D(c + y/mu), y_out = y + mu e. Partial: the certificate is for the final iterate u_k; the residual at the returned u-hat_k is monitored only (open finding); infinite input bounds and the 2-norm = stage-accumulated p.p are covered by monitors only.',
         note='Lean kernel + Mathlib; kernels regenerated by gen_c05/gen_c06; hand-written loop model tied on explored runs only; forward / backward / LQR / masked L-BFGS are oracles (C12), frame condition checked per call; real-number semantics in the field theorems.',
         design='§6 C13, §7-J2,K,L'),
+    'C10': dict(
+        technique='Lean 4 proof over ordered fields of the translator-generated ring / iterator / Anderson kernels and a hand model of MGS / Givens / circular back-substitution, induction over operation histories + bit-exact op-sequence correspondence (exhaustive to length 8) + numpy / exact-rational monitors',
+        category='proof',
+        text='Index arithmetic and scalar formulas of limited-memory-qr.hpp / ringbuffer.hpp / anderson-helpers.hpp / anderson.hpp are regenerated on every run (loop skeletons shape-checked). Theorems for every capacity, dimension and history within capacity: ring refinement; add_column [A v] = Q R as MGS bookkeeping for any number of reorthogonalisation passes; remove_column under the Givens contract; scale_R; solve_col back-substitution with pivot threshold; Q^T Q = I kept by add/remove (lawful sqrt); hence solve_col returns the least-squares minimiser after any history; Anderson: sum alpha = 1, output = sum alpha_i g_i over the last min(k, memory, n)+1 function values, G ring aligned with R ring, gamma_LS least-squares, m_AA = min(n, memory). Partial: floating-point conditioning / benefit of reorthogonalisation on nearly dependent columns and min/max_eig are only modelled and monitored; requires norm_q != 0 (the excluded point is an open known finding).',
+        note='Lean kernel + Mathlib; translator gen/gen_c10.py; makeGivens and sqrt enter as contracts (driver uses a line-by-line port of Eigen makeGivens, bit-exact); hand model tied only on explored op sequences; real-number semantics.',
+        design='§6 C10'),
+    'C12': dict(
+        technique='Lean 4 proof (unbounded horizon, dimensions, masks) of translator-generated OCPVariables index formulas / IndexSet loops and hand models of forward / backward / masked Riccati + bit-exact Float correspondence for forward, backward, layout, IndexSet + exact-rational monitors (forward-mode differentiation, dense KKT solve)',
+        category='proof',
+        text='For all N, dimensions, oracles and masks: storage segments pairwise disjoint and in bounds (omega on the regenerated formulas); J ascending filter, K ascending complement, J ++ K a permutation of range n at every step; forward = sum of stage costs + terminal cost + half mu-weighted squared box distance along the trajectory simulated from x_init, on the flat storage (nh=0, nc=0, terminal-only inside the statement); the adjoint sweep equals the transpose of the linearised roll-out and the penalty derivative is mu(zeta - Pi zeta); the masked Riccati step satisfies the KKT system of the masked QP, minimises it with the gap as a sum of squares, and is unique under positive definiteness (Cholesky and LU through the solve contract). Partial: "gradient = Frechet derivative" is proved up to the chain rule over the N-fold composition (adjoint = tangent sensitivity + penalty derivative), the rest is monitored by exact differentiation.',
+        note='Lean kernel + Mathlib; translator gen/gen_c12.py (34 regions); Eigen LDLT / PartialPivLU enter as the contract R X = B; Riccati model tied to the code to 2^-30 cond, not bit-exactly; IndexSet::update outer loop tied by hash + correspondence; IEEE rounding not modelled.',
+        design='§6 C12'),
 }
 
 NOT_YET = {
-    'C20': 'model, theorems and check exist (checks/c20.py); withheld from the claimed list until the repairs of its findings F1-F8 are applied to /repo (the model already follows the repaired code)',
 }
 
 def main():
